@@ -466,6 +466,12 @@ impl Profile for Misdeliver {
             pool.extend(shared.iter().copied());
         }
         pool.extend(reg.family("f3").into_iter().take(4));
+        // override programs: a document for the generated message of a kind must not reach the
+        // user's function of another kind (and the other way round)
+        let ov = reg.family("f2");
+        for _ in 0..2 {
+            pool.extend(ov.iter().copied());
+        }
         let n = rng.range(1, 3) as usize;
         simple_world(rng, reg, &pool, n, false)
     }
